@@ -110,8 +110,8 @@ PROPS = {
     "C06": {
         "harness": "c06",
         "props_file": "Props/C06.v",
-        "run_module": "Model.Version Model.RunC06",
-        "run_fn": "run_c06",
+        "run_module": "Model.Version Model.RunC06 Model.Jsr Model.RunJsr Model.RunJsrAll",
+        "run_fn": "run_c06j",
         "pinned_theorems": ["C06_resolve_version", "C06_select", "C06_select_unique", "C06_select_unique_up_to_rank", "C06_order_free",
                             "C06_order_free_perm", "C06_wf_ranks_decided", "C06_wf_nodup_decided",
                             "C06_get_for_package", "C06_excluded", "C06_not_excluded",
@@ -147,8 +147,8 @@ PROPS = {
     "C01": {
         "harness": "c01",
         "props_file": "Props/C01.v",
-        "run_module": "Model.Graph Model.Walk Model.RunC15 Model.RunC02 Model.RunC14 Model.Prune Model.RunC17 Model.Builder Model.RunC01",
-        "run_fn": "run_c01",
+        "run_module": "Model.Graph Model.Walk Model.RunC15 Model.RunC02 Model.RunC14 Model.Prune Model.RunC17 Model.Builder Model.RunC01 Model.Jsr Model.RunJsr Model.RunJsrAll",
+        "run_fn": "run_c01j",
         "pinned_theorems": ["C01_complete", "C01_settled_unfold", "C01_single_entry_step", "C01_recorded_dep", "C01_nothing_pending"],
         "rule": ("proviso worlds of 2-11 modules (JS/TS/JSX/TSX/d.ts/mjs/mts/JSON by extension or content-type header; "
                  "static/named/type-only/dynamic/export-star/export-type/@deno-types/reference types+path/self-types/"
@@ -169,8 +169,8 @@ PROPS = {
     "C03": {
         "harness": "c03",
         "props_file": "Props/C03.v",
-        "run_module": "Model.Graph Model.Walk Model.RunC15 Model.RunC02 Model.RunC14 Model.Prune Model.RunC17 Model.Builder Model.RunC01",
-        "run_fn": "run_c01",
+        "run_module": "Model.Graph Model.Walk Model.RunC15 Model.RunC02 Model.RunC14 Model.Prune Model.RunC17 Model.Builder Model.RunC01 Model.Jsr Model.RunJsr Model.RunJsrAll",
+        "run_fn": "run_c03",
         "level": "proof",
         "pinned_theorems": ["C03_no_pending", "C03_step_invariant", "C03_error_entry"],
         "rule": ("fault enumeration: EVERY assignment of a response kind {module, missing, load error, external, "
@@ -190,8 +190,8 @@ PROPS = {
     "C04": {
         "harness": "c04",
         "props_file": "Props/C04.v",
-        "run_module": "Model.Graph Model.Walk Model.RunC15 Model.RunC02 Model.RunC14 Model.Prune Model.RunC17 Model.Builder Model.RunC01",
-        "run_fn": "run_c01",
+        "run_module": "Model.Graph Model.Walk Model.RunC15 Model.RunC02 Model.RunC14 Model.Prune Model.RunC17 Model.Builder Model.RunC01 Model.Jsr Model.RunJsr Model.RunJsrAll",
+        "run_fn": "run_c04",
         "pinned_theorems": ["C04_schedule_independent", "C04_scheduled_equals_sequential", "C04_poll_delivers"],
         "rule": ("C01 worlds biased towards several dynamic branches sharing a failing descendant; each world is built "
                  "on the REAL code once with an immediately-ready loader, 6 (quick) / 25 (thorough) more times in the "
@@ -307,8 +307,8 @@ PROPS = {
     "C07": {
         "harness": "c07",
         "props_file": "Props/C07.v",
-        "run_module": "Model.Packages Model.RunC07",
-        "run_fn": "run_c07",
+        "run_module": "Model.Packages Model.RunC07 Model.Jsr Model.RunJsr Model.RunJsrAll",
+        "run_fn": "run_c07j",
         "pinned_theorems": ["C07_version_print_parse", "C07_version_parse_canonical", "C07_pkg_url_shape",
                             "C07_url_roundtrip", "C07_url_unique_owner", "C07_to_nv_result_roundtrips",
                             "C07_url_no_misattribution", "C07_url_no_misattribution_text",
@@ -352,8 +352,8 @@ PROPS = {
     "C05": {
         "harness": "c05",
         "props_file": "Props/C05.v",
-        "run_module": "Model.Graph Model.Walk Model.RunC15 Model.RunC02 Model.RunC14 Model.Prune Model.RunC17 Model.Builder Model.RunC01 Model.RunC19 Model.RunC05",
-        "run_fn": "run_c05",
+        "run_module": "Model.Graph Model.Walk Model.RunC15 Model.RunC02 Model.RunC14 Model.Prune Model.RunC17 Model.Builder Model.RunC01 Model.RunC19 Model.RunC05 Model.Jsr Model.RunJsr Model.RunJsrAll",
+        "run_fn": "run_c05j",
         "pinned_theorems": ["C05_presented", "C05_rejected", "C05_one_retry", "C05_redirect_rejected",
                             "C05_recorded_once", "C05_recorded_value", "C05_text_hash_refuted"],
         "rule": ("C01 worlds, mostly remote, where 12% of remote sources carry a UTF-8 BOM or are served as UTF-16 "
